@@ -21,26 +21,31 @@ package sbom
 //@   props C11, C12
 //@   assigns \nothing
 //@   owns
+//@   ensures result != nil
 
 //@ func ExternalReference.Copy
 //@   props C11, C12
 //@   assigns \nothing
 //@   owns
+//@   ensures result != nil
 
 //@ func Edge.Copy
 //@   props C11, C12
 //@   assigns \nothing
 //@   owns
+//@   ensures result != nil
 
 //@ func Node.Copy
 //@   props C11, C12
 //@   assigns \nothing
 //@   owns
+//@   ensures result != nil
 
 //@ func NodeList.Copy
 //@   props C11, C12
 //@   assigns \nothing
 //@   owns
+//@   ensures result != nil
 
 //@ func copyEdgeList
 //@   props C11, C12
@@ -237,3 +242,51 @@ package sbom
 //@ table hashAlgoSPDXNamed [C01]: forall h HashAlgorithm :: 1 <= h && h <= 17 && h != 13 ==> HashAlgorithm.ToSPDX(h) != ""
 //@ table hashAlgoSPDXRoundTrip [C01]: forall h HashAlgorithm :: 1 <= h && h <= 17 && HashAlgorithm.ToSPDX(h) != "" ==> HashAlgorithmFromSPDX(HashAlgorithm.ToSPDX(h)) == h
 //@ table identifierSPDXType [C01]: forall i SoftwareIdentifierType :: 1 <= i && i <= 4 ==> SoftwareIdentifierTypeFromSPDXExtRefType(SoftwareIdentifierType.ToSPDX2Type(i)) == i
+
+// ---------------------------------------------------------------------------
+// C09: attribute precedence (generated per field from the Node struct of the
+// current working tree; Id is the identity of a shared node and is exempt)
+// ---------------------------------------------------------------------------
+
+//@ func Node.Update
+//@   props C09, C10
+//@   requires n2 != nil
+//@   assigns n.*
+//@   ensures-each Node[string] except Id: [C09:update:$f] n.$f == old(n2.$f != "" ? n2.$f : n.$f)
+//@   ensures-each Node[enum]: [C09:update:$f] n.$f == old(n2.$f != 0 ? n2.$f : n.$f)
+//@   ensures-each Node[slice,map]: [C09:update:$f] n.$f == old(len(n2.$f) > 0 ? n2.$f : n.$f)
+//@   ensures-each Node[ptr]: [C09:update:$f] n.$f == old(n2.$f != nil ? n2.$f : n.$f)
+//@   ensures [C09:update:Id] n.Id == old(n.Id)
+
+//@ func Node.Augment
+//@   props C09
+//@   requires n2 != nil
+//@   assigns n.*
+//@   ensures-each Node[string] except Id: [C09:augment:$f] n.$f == old(n.$f != "" ? n.$f : n2.$f)
+//@   ensures-each Node[enum]: [C09:augment:$f] n.$f == old(n.$f != 0 ? n.$f : n2.$f)
+//@   ensures-each Node[slice,map]: [C09:augment:$f] n.$f == old(len(n.$f) > 0 ? n.$f : (len(n2.$f) > 0 ? n2.$f : n.$f))
+//@   ensures-each Node[ptr]: [C09:augment:$f] n.$f == old(n.$f != nil ? n.$f : n2.$f)
+//@   ensures [C09:augment:Id] n.Id == old(n.Id)
+
+// ---------------------------------------------------------------------------
+// C14: node diff
+// ---------------------------------------------------------------------------
+
+// elems(s) is the set of elements of slice s, elemsn(s, n) of its first n
+// elements (ghost set view, see DESIGN.md)
+
+//@ func contains
+//@   props C14
+//@   assigns \nothing
+//@   ensures [C14:contains] result <==> (e in elems(s))
+//@   invariant L0: !(e in elemsn(s, _i))
+
+//@ func diffSlice
+//@   props C14
+//@   assigns \nothing
+//@   ensures [C14:diffSlice:added] forall x T :: (x in elems(added)) <==> ((x in elems(arr2)) && !(x in elems(arr1)))
+//@   ensures [C14:diffSlice:removed] forall x T :: (x in elems(removed)) <==> ((x in elems(arr1)) && !(x in elems(arr2)))
+//@   ensures [C14:diffSlice:count] count == (len(added) + len(removed) > 0 ? 1 : 0)
+//@   ensures [C14:diffSlice:fresh] fresh(added) && fresh(removed)
+//@   invariant L0: forall x T :: (x in elems(added)) <==> ((x in elemsn(arr2, _i)) && !(x in elems(arr1)))
+//@   invariant L1: (forall x T :: (x in elems(added)) <==> ((x in elems(arr2)) && !(x in elems(arr1)))) && (forall y T :: (y in elems(removed)) <==> ((y in elemsn(arr1, _i)) && !(y in elems(arr2))))
